@@ -115,6 +115,20 @@ func (s *SchedulerImpl) removeAllWfFromBarrierBuffer'''),
 		return true
 	}
 '''),
+ 'scalar-load-complete-at-first-piece': ('amd/timing/cu/scalarunit.go', '''		if bytesLeft > 0 {
+			req.CanWaitForCoalesce = true
+		}''', '''		if curr != start {
+			req.CanWaitForCoalesce = true
+		}'''),
+ 'scalar-last-piece-test-inverted': (CU, 'return !req.CanWaitForCoalesce', 'return req.CanWaitForCoalesce'),
+ 'scalar-counter-decremented-per-piece': (CU, '''	if cu.isLastRead(req) {
+		wf.OutstandingScalarMemAccess--
+		cu.logInstTask(wf, info.Inst, true)
+	}''', '''	wf.OutstandingScalarMemAccess--
+	if cu.isLastRead(req) {
+		cu.logInstTask(wf, info.Inst, true)
+	}'''),
+ 'scalar-second-piece-to-first-register': ('amd/timing/cu/scalarunit.go', 'DstSGPR:   insts.SReg(regIndex + int((curr-start)/4)),', 'DstSGPR:   insts.SReg(regIndex),'),
  'scalar-load-complete-at-issue': (CU, '''	if cu.isLastRead(req) {
 		wf.OutstandingScalarMemAccess--
 		cu.logInstTask(wf, info.Inst, true)
